@@ -270,7 +270,7 @@ static SolveLog run_solve(int n, const MatL& M, const VecL& xl, F apply)
 }
 
 template <typename Sc, int Uplo, int Flags>
-static void dense_sym_shift(const Data& d, int tycode, double sigma)
+static void dense_sym_shift(const Data& d, int tycode, double sigma, bool strict = false)
 {
     typedef Eigen::Matrix<Sc, Eigen::Dynamic, Eigen::Dynamic, Flags> Mat;
     typedef Eigen::Matrix<Sc, Eigen::Dynamic, 1> Vec;
@@ -286,6 +286,9 @@ static void dense_sym_shift(const Data& d, int tycode, double sigma)
         op.perform_op(x.data(), y.data());
         return y;
     });
+    // strict: the residual is judged as a BACKWARD error (no condition-number allowance): graded "pivot trap" inputs
+    if (strict)
+        s.cond = 1;
     solve_row("DenseSymShiftSolve", "dense", Uplo == UP, Flags == RM, "-", tycode, "shiftsolve", n, s);
 }
 template <typename Sc, int Uplo, int Flags, typename SI>
@@ -668,6 +671,33 @@ void dispatch(const Desc& d)
         }
 #endif
     }
+#if !defined(VH_MATOP_PART) || VH_MATOP_PART == 2
+    if (part == "all" || part == "solve")
+    {
+        // graded pivot traps [[0,1,0],[1,d,M],[0,M,e]]: a zero diagonal entry whose column maximum (1) sits in a row with a huge entry M.
+        // The Bunch-Kaufman test must compare |a_rr| with the row maximum sigma, not with lambda; a wrong 1x1 pivot gives element growth M.
+        // Data exactly representable; the factorization is backward stable whatever the condition number is.
+        const int Ms[4] = {1000, 100000, 10000000, 1000000000};
+        for (int mi = 0; mi < 4; mi++)
+            for (int var = 0; var < 2; var++)
+            {
+                Data dt = make_data(3, r);
+                dt.S.setZero();
+                dt.S(0, 1) = dt.S(1, 0) = 1;
+                dt.S(1, 1) = 1;
+                dt.S(1, 2) = dt.S(2, 1) = Ms[mi];
+                dt.S(2, 2) = var ? 1 : Ms[mi];
+                dt.x[0] = 1; dt.x[1] = 2; dt.x[2] = -1;
+#define TRAP(Sc, code) dense_sym_shift<Sc, LO, CM>(dt, code, 0.0, true); dense_sym_shift<Sc, UP, RM>(dt, code, 0.0, true);
+                TRAP(double, 2) TRAP(long double, 3)
+                if (mi < 2)
+                {
+                    TRAP(float, 1)
+                }
+#undef TRAP
+            }
+    }
+#endif
     Line e("EndMatOp");
     e.i("reps", reps).str("part", part);
     out().put(e);
